@@ -282,6 +282,13 @@ func c07Scenarios(tier string) []engine.Scenario {
 				setCookie("B2", "pid+zero-nonce", func(*world.World) string {
 					return base64.URLEncoding.EncodeToString(append([]byte(x+";"), make([]byte, 32)...))
 				}),
+				setCookie("B2", "pid+short-nonce", func(*world.World) string {
+					return base64.URLEncoding.EncodeToString(append([]byte(x+";"), make([]byte, 31)...))
+				}),
+				setCookie("B2", "pid+long-nonce", func(*world.World) string {
+					return base64.URLEncoding.EncodeToString(append([]byte(x+";"), make([]byte, 33)...))
+				}),
+				setCookie("B2", "pid+empty-nonce", func(*world.World) string { return base64.URLEncoding.EncodeToString([]byte(x + ";")) }),
 			)
 			if sec := w.Truth.Newest("rm", x, false); sec != nil {
 				v := sec.Val
